@@ -277,12 +277,10 @@ pub(crate) fn _rev_status_list(
 ) -> Result<Option<Vec<RevocationStatusList>>> {
     let rev_status_list: AnoncredsObjectList =
         AnoncredsObjectList::load(rev_status_list.as_slice())?;
-    let rev_status_list: Result<Vec<&RevocationStatusList>> = rev_status_list.refs();
-    let rev_status_list = rev_status_list.ok();
+    // a handle of another type is an error of the caller, not "no status lists"
+    let rev_status_list: Vec<&RevocationStatusList> = rev_status_list.refs()?;
 
-    let rev_status_lists = rev_status_list
-        .as_ref()
-        .map(|v| v.iter().copied().cloned().collect());
+    let rev_status_lists = Some(rev_status_list.iter().copied().cloned().collect());
     Ok(rev_status_lists)
 }
 
